@@ -608,6 +608,7 @@ type sharedEnv struct {
 
 	// one DebugDialer value all "debug-dialer" sessions of the run dial through
 	dbg      *wsutil.DebugDialer
+	dbgLeft  int32 // dials that still go through the shared value (the rest use a copy of it)
 	mu       sync.Mutex
 	dbgConns map[string]net.Conn // "host:80" -> the dialing session's in-memory conn
 	dbgReq   map[string][][]byte // session key -> what OnRequest reported
@@ -617,6 +618,7 @@ type sharedEnv struct {
 var dbgProtocols = []string{"dbg.v1", "dbg.v2"}
 
 func (e *sharedEnv) initDebugDialer() {
+	e.dbgLeft = 16
 	e.dbgConns, e.dbgReq, e.dbgResp = map[string]net.Conn{}, map[string][][]byte{}, map[string][][]byte{}
 	e.dbg = &wsutil.DebugDialer{
 		Dialer: ws.Dialer{Protocols: dbgProtocols, NetDial: func(ctx context.Context, network, addr string) (net.Conn, error) {
@@ -858,7 +860,16 @@ func (s *session) debugDial() {
 	e.mu.Lock()
 	e.dbgConns[host+":80"] = own
 	e.mu.Unlock()
-	conn, br, hs, err := e.dbg.Dial(context.Background(), "ws://"+host+"/"+key)
+	// Only the first 16 dials of a run share the DebugDialer value; later ones
+	// dial through a private copy (same options and callbacks, same results).
+	// This bounds the work when a defect makes overlapping dials wrap each
+	// other's connections.
+	dd := e.dbg
+	if atomic.AddInt32(&e.dbgLeft, -1) < 0 {
+		cp := *e.dbg
+		dd = &cp
+	}
+	conn, br, hs, err := dd.Dial(context.Background(), "ws://"+host+"/"+key)
 	e.mu.Lock()
 	delete(e.dbgConns, host+":80")
 	reqs, resps := e.dbgReq[key], e.dbgResp[key]
